@@ -138,7 +138,8 @@ def infer(cat, pres):
     import io
     from dagrt.data import SymbolKindFinder
     names = [n for n, _ in pres]
-    phases = [[make_stmt(cat[k], "%s_%d" % (n, k)) for k in idxs] for n, idxs in pres]
+    # statement ids are unique within a phase only: the r-th smallest catalogue index of EVERY phase is called s<r>
+    phases = [[make_stmt(cat[k], "s%d" % sorted(idxs).index(k)) for k in idxs] for n, idxs in pres]
     try:
         with contextlib.redirect_stdout(io.StringIO()):
             tbl = SymbolKindFinder(registry())(names, phases)
